@@ -18,6 +18,12 @@ open Pandora.Model.C03
 /-- statements of the iteration function `func() error { … }` (flat, `if`/`else`/`end` as markers; no nesting) -/
 inductive Instr where
   | acquireOrReturn (v : String)        -- `v, ok := i.provider.Acquire(); if !ok { return outOfAmmoErr }`
+  | acquireOrReturnIf (v : String) (tests : List String) (itemIsNil : Bool)
+      -- `v, ok := i.provider.Acquire(); if !ok || <test on v> || … { return outOfAmmoErr }`: the iteration is also left when
+      -- the VALUE of the item passes one of the tests (`"nil"` = `v == nil`; any other text = a test the model does not know).
+      -- `core.Ammo` is `interface{}`: every value, the untyped nil included, is a valid item (`provider.Dummy` hands out nothing
+      -- else) — the only thing that says "no more ammo" is `ok == false`.  `itemIsNil`: the run is about an item whose value
+      -- is nil (the translator emits `false`; `onNilItem` turns it on: the same body, run on a nil item)
   | deferRelease (v : String)           -- `defer i.provider.Release(v)`
   | release (v : String)                -- `i.provider.Release(v)` as a plain statement
   | waitOrReturn                        -- `if !waiter.Wait(ctx) { return nil }`
@@ -78,6 +84,14 @@ def exec : List Instr → Oracle → Mode → Option String → List Instr → L
     match ins with
     | .acquireOrReturn x =>
       if o.acqOk then cons .acq (exec rest o .run (some x) ds) else (.empty :: runDefers ds, .retErr)
+    | .acquireOrReturnIf x tests itemIsNil =>
+      if !o.acqOk then (.empty :: runDefers ds, .retErr)
+      else if tests.any (· != "nil") then cons (.bad "unknown test on the value of the item") (exec rest o .run (some x) ds)
+      else if tests.contains "nil" && itemIsNil then
+        -- an item was handed out (`ok = true`) and the iteration returns the out-of-ammo error all the same: the item is
+        -- neither fired nor released (the `defer` comes later) — no path of the model
+        cons .acq (runDefers ds, .retErr)
+      else cons .acq (exec rest o .run (some x) ds)
     | .deferRelease x =>
       if v = some x then exec rest o .run v (ins :: ds) else cons (.bad "release of something else") (exec rest o .run v ds)
     | .release x =>
@@ -140,9 +154,17 @@ def allOracles : List Oracle :=
   [⟨false, false, false⟩, ⟨false, false, true⟩, ⟨false, true, false⟩, ⟨false, true, true⟩,
    ⟨true, false, false⟩, ⟨true, false, true⟩, ⟨true, true, false⟩, ⟨true, true, true⟩]
 
-/-- every path of the iteration body, in both schedule modes, is a path of the model -/
+/-- the same body, run on an item whose VALUE is the untyped nil (a valid ammo: `core.Ammo` is `interface{}`, the built-in
+`dummy` provider hands out nothing else): only a statement that tests the value behaves differently -/
+def onNilItem : List Instr → List Instr
+  | [] => []
+  | .acquireOrReturnIf v tests _ :: rest => .acquireOrReturnIf v tests true :: onNilItem rest
+  | i :: rest => i :: onNilItem rest
+
+/-- every path of the iteration body, in both schedule modes, for items of every value (nil or not), is a path of the model -/
 def bodyAccepted (body : List Instr) : Bool :=
-  allOracles.all (fun o => pathAccepted body false o && pathAccepted body true o)
+  allOracles.all (fun o => pathAccepted body false o && pathAccepted body true o &&
+    pathAccepted (onNilItem body) false o && pathAccepted (onNilItem body) true o)
 
 /-- the iteration body as the model was written for (instance.go at the time of writing); only used for
 non-vacuity examples and documentation — the obligation is about the REGENERATED body -/
